@@ -137,6 +137,10 @@ def run(prog: Program, rep, tier="quick"):
                       "passes a failure-status definition (success only on the success path)")
     rep.rule("R06.3", "server: the new value of a wire-commanded ref update is dominated by a membership test in the "
                       "object store whose 'absent' side does not reach the write")
+    rep.rule("R06.5", "the files backend's compare-and-swap compares values read under the ref lock (DEF-INSIDE, shared with R08.1): "
+                      "a stale compare lets a rejected update through and reports it ok")
+    rep.rule("R06.4c", "the all-or-nothing decision variable of the atomic branch accumulates: inside the validation loop it is "
+                       "only ever set to True (or or-ed), never overwritten by the last command's verdict")
     rep.rule("R06.4b", "atomic under a racing writer: the per-ref compare-and-swap loop of the atomic branch runs with "
                        "all ref locks held / inside a transaction, or a failure after an earlier success is rolled back")
     rep.rule("R06.4", "atomic: the flag/capability is tested; the validation before the first mutation reads every "
@@ -209,10 +213,53 @@ def run(prog: Program, rep, tier="quick"):
                         if isinstance(x, ast.Subscript) and isinstance(x.ctx, ast.Load) and \
                                 (dotted(x.value) or "").endswith(".refs"):
                             reads.append(i)
+            # ... and what was read must be compared: a name bound at a read node occurs in a comparison test
+            read_names = set()
+            for i in reads:
+                for e in node_exprs(g.nodes[i]):
+                    if isinstance(e, ast.Assign):
+                        for t_ in e.targets:
+                            read_names |= {x.id for x in ast.walk(t_) if isinstance(x, ast.Name)}
+            compared = any(g.nodes[i].kind == "test" and isinstance(g.nodes[i].ast, ast.Compare)
+                           and read_names & {x.id for x in ast.walk(g.nodes[i].ast) if isinstance(x, ast.Name)}
+                           and any(isinstance(o, (ast.Eq, ast.NotEq)) for o in g.nodes[i].ast.ops) for i in region)
+            reads = reads if compared else []
             rep.ob("R06.4", rel, qual, "atomic validation reads current ref values", bool(reads),
                    "the atomic branch compares nothing that was read from the ref store with a ref-state read "
                    "before it starts mutating: a stale old value is discovered only after other refs were changed",
                    g.nodes[t].line)
+        # ---- R06.4c the failure flag accumulates over the commands
+        for t in atomic_tests:
+            true_side = {b for b, l in g.succ[t] if l == "true"}
+            region = reach(g, true_side, include_srcs=True)
+            # flags: names tested alone in the region whose true side returns before any CAS
+            cas_set = {i for i in region for c in node_calls(g.nodes[i])
+                       if isinstance(c.func, ast.Attribute) and c.func.attr in ("set_if_equals", "remove_if_equals")}
+            flags = set()
+            for i in region:
+                nd = g.nodes[i]
+                if nd.kind == "test" and isinstance(nd.ast, ast.Name) and nd.ast.id != "atomic" and i not in reach(g, [i]):
+                    # the decision point: outside any loop, and its true side gives up without touching a ref
+                    tside = [b for b, l in g.succ[i] if l == "true"]
+                    r_ = reach(g, tside, include_srcs=True)
+                    if not (r_ & cas_set) and g.exit_normal in r_:
+                        flags.add(nd.ast.id)
+            for flag in sorted(flags):
+                assigns = [(i, e) for i in region for e in node_exprs(g.nodes[i])
+                           if isinstance(e, (ast.Assign, ast.AugAssign)) and isinstance(
+                               (e.targets[0] if isinstance(e, ast.Assign) else e.target), ast.Name)
+                           and (e.targets[0] if isinstance(e, ast.Assign) else e.target).id == flag]
+                in_loop = [(i, e) for i, e in assigns if i in reach(g, [i])]
+                if not in_loop:
+                    continue
+                for i, e in in_loop:
+                    v = e.value
+                    ok = (isinstance(v, ast.Constant) and v.value is True) or isinstance(e, ast.AugAssign) or \
+                        any(isinstance(x, ast.Name) and x.id == flag for x in ast.walk(v))
+                    rep.ob("R06.4c", rel, qual, f"`{norm(e, 60)}` accumulates the failure of any command", ok,
+                           f"`{flag}` decides whether the atomic push is applied at all but is overwritten on every iteration: "
+                           f"only the last command's verdict counts, so an earlier failing command lets the rest be applied",
+                           g.nodes[i].line)
         # ---- R06.4b all-or-nothing under a racing writer: a CAS that fails after an earlier one succeeded
         for t in atomic_tests:
             true_side = {b for b, l in g.succ[t] if l == "true"}
@@ -272,6 +319,15 @@ def run(prog: Program, rep, tier="quick"):
             rep.ob("R06.3", f.module.rel, f.qual, s.key + _branch_tag(f, s), bool(tests) and not bad,
                    "a ref is set to a value received from the wire without checking that the object store has it",
                    s.call.lineno, lines(g, path(g, [g.entry], bad[0], edge_ok=edge_ok)) if bad else [])
+    # ---- R06.5: the compare-and-swap primitive the push relies on compares under the lock (same engine as R08.1)
+    from rules import c08
+    before = len(rep.obs)
+    c08.r08_1(prog, rep)
+    for o in rep.obs[before:]:
+        o.rule = "R06.5"
+    from sa.common import alias_guard
+    alias_guard(prog, rep, "R06.1", {"set_if_equals", "remove_if_equals", "add_if_new"})
+    rep.floor("R06.5", 7)
     rep.floor("R06.1", 6)
     rep.floor("R06.3", 2)
     rep.floor("R06.4", 3)
